@@ -1,6 +1,13 @@
 from typing import Any, Protocol  # noqa: F401
 
 
+def set_header(headers: dict[str, Any], name: str, value: Any) -> None:
+    """Set a header, replacing every field whose name differs only in case (HTTP field names are case-insensitive)."""
+    for existing in [key for key in headers if key.lower() == name.lower()]:
+        del headers[existing]
+    headers[name] = value
+
+
 class BaseAuth(Protocol):
     """Protocol for authentication plugins."""
 
